@@ -270,7 +270,9 @@ def run(ctx):
             H = gen.relabel(r, H, "frozenset")[0]
         elif lk < 0.26:
             H = gen.relabel(r, H, "str")[0]
-        elif lk < 0.36 and H.order() >= 3:
+        elif lk < 0.31:
+            H = gen.relabel(r, H, "negint")[0]         # names -1, -2, … / 0, -1, …
+        elif lk < 0.41 and H.order() >= 3:
             nodes_ = list(H)
             m_ = {}
             for u in nodes_[: max(1, len(nodes_) // 3)]:
